@@ -6,8 +6,15 @@ Three components, each the *real* class from scales over harness-controlled neig
               the script says so (`ok`/`fail`), so requests can arrive during a slow open
   refcount    scales.sink.RefCountedSink               over a counting sink; the calls of a batch run
               concurrently (one greenlet each), optionally with an underlying sink that yields
-  sharedprov  scales.sink.SharedSinkProvider           over a counting provider; holders keep or drop
-              their (strong) references
+  sharedprov  scales.sink.SharedSinkProvider           over a provider of real-enough sinks (state
+              Idle/Open/Closed, Open/Close, transport fault); holders keep or drop their (strong)
+              references and call Open()/Close() on what they hold, underlying sinks fail at any
+              point - so CreateSink(key) also happens while the cached shared sink is Closed and
+              older holders are alive
+
+Any exception that escapes the implementation where the model predicts a normal outcome becomes the
+observation `(raised <TypeName>)` of that operation, which the Lean specification judges (clause
+`raised`); the script stops there.
 """
 import itertools
 
@@ -15,8 +22,8 @@ from lib import vfmt
 
 PROPERTY = 'C16'
 COMPONENT = 'singleton'
-QUICK = dict(gen=4000, exh_len=5)
-THOROUGH = dict(gen=40000, exh_len=6)
+QUICK = dict(gen=4000, exh_len=5, exh_prov=4)
+THOROUGH = dict(gen=40000, exh_len=6, exh_prov=5)
 
 TRUSTED = [
     'contract of an underlying sink as implemented by the harness sink (and by the socket transports and the '
@@ -33,20 +40,29 @@ ASSUMPTIONS = [
     'the only yield point inside _Get is Open().wait(), so this reaches every interleaving at that point',
     'refcount: the order in which concurrent Open/Close calls take effect is observed from the real run '
     '(completion order) and given to the model; the effect of each call is predicted',
-    'sharedprov: a holder is a strong reference kept by the harness; dropping it is the only way a sink dies',
+    'sharedprov: a holder is a strong reference kept by the harness; dropping it is the only way a sink dies; '
+    'the harness keeps the underlying sinks themselves alive (to observe and to fault them), never the wrappers',
+    'sharedprov: the underlying sinks open synchronously: Open() makes an Idle/Open sink Open and leaves a Closed '
+    'sink Closed (failed open result); Close() and a transport fault make it Closed',
+    'an exception escaping the implementation is an observation `(raised <TypeName>)` judged by the specification; '
+    'the rest of that script is not run',
 ]
 RULE = ('scripts from the seeded generator plus the exhaustive enumerator (all singleton histories over '
-        '{req, Open, Close, open-ok, open-fail, fault} up to a length, all refcount Open/Close words up to a length); '
+        '{req, Open, Close, open-ok, open-fail, fault} up to a length, all refcount Open/Close words up to a length, '
+        'all provider histories of two holders of one key over {CreateSink, drop, Open, Close, fault} up to a length); '
         'distinct = distinct (cfg, op list); non-trivial = reaches a branch beyond the happy path: a request or '
         'Open()/Close() arriving while the sink is still opening, a replaced sink, a failed open, a surplus close, '
-        'a re-open, contended lock, a cache hit, a collected cache entry')
+        'a re-open, contended lock, a cache hit, a collected cache entry, CreateSink while the cached sink is Closed, '
+        'Open/Close of a shared sink by a second holder, a fault of a shared sink')
 
 SINGLE_ALPHA = [['req'], ['popen'], ['pclose'], ['ok', 'cur'], ['fail', 'cur'], ['fault', 'cur']]
+PROV_ALPHA = [['create', 1, 1], ['create', 2, 1], ['drop', 1], ['drop', 2], ['hopen', 1], ['hopen', 2],
+              ['hclose', 1], ['hclose', 2], ['fault', 1], ['fault', 2]]
 
 
 # ------------------------------------------------------------------ generation
 def gen_script(rng, tier):
-    kind = rng.choice(['singleton'] * 5 + ['refcount'] * 3 + ['sharedprov'] * 2)
+    kind = rng.choice(['singleton'] * 5 + ['refcount'] * 3 + ['sharedprov'] * 3)
     if kind == 'singleton':
         n = rng.choice([3, 5, 8, 12, 16, 24] if tier == 'quick' else [3, 5, 8, 12, 16, 24, 40])
         style = rng.choice(['mixed', 'mixed', 'requests', 'flaky', 'holders'])
@@ -87,14 +103,33 @@ def gen_script(rng, tier):
             batches.append(b)
         return {'kind': 'refcount', 'yield': rng.random() < 0.6, 'batches': batches}
     n = rng.choice([3, 6, 10, 16, 24])
-    nkeys = rng.choice([1, 2, 3])
+    nkeys = rng.choice([1, 1, 2, 3])
+    nhold = rng.choice([2, 3, 4])
+    style = rng.choice(['identity', 'mixed', 'mixed', 'faulty', 'openclose'])
+    weights = {
+        'identity': dict(create=60, drop=40, hopen=0, hclose=0, fault=0),
+        'mixed': dict(create=35, drop=15, hopen=20, hclose=15, fault=15),
+        'faulty': dict(create=40, drop=10, hopen=15, hclose=5, fault=30),
+        'openclose': dict(create=25, drop=10, hopen=30, hclose=30, fault=5),
+    }[style]
+    names = list(weights)
     ops = []
+    ncreate = 0
+    if style != 'identity' and rng.random() < 0.5:
+        # everybody holds the shared sink of key 1 first, so that Open/Close/fault meet several live holders
+        for h in range(1, nhold + 1):
+            ops.append(['create', h, 1])
+            ncreate += 1
     for _ in range(n):
-        if rng.random() < 0.6:
+        k = rng.choices(names, [weights[x] for x in names])[0]
+        if k == 'create':
             key = 0 if rng.random() < 0.12 else rng.randrange(1, nkeys + 1)
-            ops.append(['create', rng.randrange(1, 5), key])
+            ops.append(['create', rng.randrange(1, nhold + 1), key])
+            ncreate += 1
+        elif k == 'fault':
+            ops.append(['fault', rng.randrange(1, max(1, ncreate) + 2)])
         else:
-            ops.append(['drop', rng.randrange(1, 5)])
+            ops.append([k, rng.randrange(1, nhold + 1)])
     return {'kind': 'sharedprov', 'ops': ops}
 
 
@@ -116,6 +151,13 @@ def exhaustive(tier, shard, shards):
             calls = [[w, 1 + i % 3] for i, w in enumerate(word)]
             yield {'kind': 'refcount', 'yield': True, 'batches': [calls[i:i + 2] for i in range(0, n, 2)]}
             yield {'kind': 'refcount', 'yield': False, 'batches': [[c] for c in calls]}
+    # sharedprov: every history of two holders of one key
+    for n in range(1, params['exh_prov'] + 1):
+        for word in itertools.product(range(len(PROV_ALPHA)), repeat=n):
+            k += 1
+            if k % shards != shard:
+                continue
+            yield {'kind': 'sharedprov', 'ops': [list(PROV_ALPHA[i]) for i in word]}
 
 
 def shrink(script):
@@ -141,6 +183,16 @@ def shrink(script):
 # ------------------------------------------------------------------ running the real code
 class E(Exception):
     pass
+
+
+# what an implementation call may raise and the harness turns into the observation `(raised <TypeName>)`
+_IMPL_EXC = Exception
+
+
+def _raised_at_start(comp, cfg, first_text, ex):
+    """constructing the object under test raised: charged to the first operation of the script"""
+    steps = [[first_text, vfmt(['raised', type(ex).__name__])]] if first_text else []
+    return {'comp': comp, 'cfg': cfg, 'steps': steps, 'tags': ['raised']}
 
 
 def _state_name(st):
@@ -254,7 +306,12 @@ def run_singleton(script):
             sinks.append(s)
             return s
 
-    pool = SingletonPoolSink(Prov(), None, {SinkProperties.Endpoint: _Ep(), SinkProperties.Label: 'c16'})
+    try:
+        pool = SingletonPoolSink(Prov(), None, {SinkProperties.Endpoint: _Ep(), SinkProperties.Label: 'c16'})
+    except _IMPL_EXC as ex:
+        first = script['ops'][0] if script['ops'] else None
+        return _raised_at_start('singleton', '', first and (
+            'req 1' if first[0] == 'req' else first[0] if len(first) == 1 else '%s 1' % first[0]), ex)
     greenlets = []
     steps = []
     rid = [0]
@@ -288,50 +345,58 @@ def run_singleton(script):
     waiting = [0]
     for op in script['ops']:
         name = op[0]
-        if name == 'req':
-            rid[0] += 1
-            text = 'req %d' % rid[0]
-            if any(s.pending() for s in sinks):
-                tags.add('req-during-open')
-            greenlets.append(gevent.spawn(request, rid[0]))
-        elif name == 'popen':
-            text = 'popen'
-            if any(s.pending() for s in sinks):
-                tags.add('open-during-open')
-            pool.Open()
-        elif name == 'pclose':
-            text = 'pclose'
-            if any(s.pending() for s in sinks) and pool._ref_count <= 1 and waiting[0]:
-                tags.add('close-during-open')
-            pool.Close()
-        else:
-            k = sink_id(op[1])
-            text = '%s %d' % (name, k)
-            if 1 <= k <= len(sinks):
-                s = sinks[k - 1]
-                if name == 'fault':
-                    if s.pending():
-                        tags.add('fault-during-open')
-                    elif s is pool.next_sink:
-                        tags.add('fault-open-sink')
-                    s.fault()
-                else:
-                    if s.pending():
-                        tags.add('open-' + name)
-                    s.complete(name == 'ok')
-        rt.drain()
-        errs = rt.take_errors()
-        obs = observe()
-        if len(obs[3]) >= 2:
-            tags.add('concurrent-handover')
-        if any(j == 0 for _, j in obs[3]):
-            tags.add('dropped')
+        obs = None
+        text = name if len(op) == 1 else '%s %d' % (name, max(1, len(sinks)))
+        try:
+            if name == 'req':
+                rid[0] += 1
+                text = 'req %d' % rid[0]
+                if any(s.pending() for s in sinks):
+                    tags.add('req-during-open')
+                greenlets.append(gevent.spawn(request, rid[0]))
+            elif name == 'popen':
+                text = 'popen'
+                if any(s.pending() for s in sinks):
+                    tags.add('open-during-open')
+                pool.Open()
+            elif name == 'pclose':
+                text = 'pclose'
+                if any(s.pending() for s in sinks) and pool._ref_count <= 1 and waiting[0]:
+                    tags.add('close-during-open')
+                pool.Close()
+            else:
+                k = sink_id(op[1])
+                text = '%s %d' % (name, k)
+                if 1 <= k <= len(sinks):
+                    s = sinks[k - 1]
+                    if name == 'fault':
+                        if s.pending():
+                            tags.add('fault-during-open')
+                        elif s is pool.next_sink:
+                            tags.add('fault-open-sink')
+                        s.fault()
+                    else:
+                        if s.pending():
+                            tags.add('open-' + name)
+                        s.complete(name == 'ok')
+            rt.drain()
+            errs = rt.take_errors()
+            obs = observe()
+        except _IMPL_EXC as ex:
+            # an exception escaped a call into the implementation (Open(), Close(), a fault callback, …)
+            errs = [(type(ex).__name__, '')]
+            rt.take_errors()
+        if obs is not None:
+            if len(obs[3]) >= 2:
+                tags.add('concurrent-handover')
+            if any(j == 0 for _, j in obs[3]):
+                tags.add('dropped')
         waiting[0] = sum(1 for g in greenlets if not g.dead)
         if errs:
             tags.add('hub-error')
             steps.append([text, vfmt(['raised', errs[0][0]])])
-        else:
-            steps.append([text, vfmt(obs)])
+            break
+        steps.append([text, vfmt(obs)])
     if len(sinks) >= 2:
         tags.add('replaced')
     if len(sinks) >= 3:
@@ -393,7 +458,11 @@ def run_refcount(script):
             pass
 
     under = Under()
-    rc = RefCountedSink(under)
+    try:
+        rc = RefCountedSink(under)
+    except _IMPL_EXC as ex:
+        first = [c for b in script['batches'] for c in b][:1]
+        return _raised_at_start('refcount', vfmt(yields), first and ' '.join(str(x) for x in first[0]), ex)
     steps = []
     running = [0]
 
@@ -448,16 +517,56 @@ def run_refcount(script):
     return {'comp': 'refcount', 'cfg': vfmt(yields), 'steps': steps, 'tags': sorted(tags)}
 
 
+_FROZEN = [False]
+
+
 def run_sharedprov(script):
     import gc
     import rt
+    if not _FROZEN[0]:
+        # every operation below ends with gc.collect(), so that what the weak cache holds does not depend on
+        # when the cyclic collector happens to run; exempt what the process has loaded so far from those
+        # collections, otherwise each one costs ~10 ms
+        gc.collect()
+        gc.freeze()
+        _FROZEN[0] = True
+    from scales.asynchronous import AsyncResult
+    from scales.constants import ChannelState
     from scales.sink import ClientMessageSink, RefCountedSink, SharedSinkProvider
     tags = set()
 
-    class Plain(ClientMessageSink):
+    class Under(ClientMessageSink):
+        """underlying sink, real enough for the provider and the wrapper: Idle until opened, Open() opens it
+        unless it is Closed, Close() and a transport fault close it"""
+
         def __init__(self, idx):
-            super(Plain, self).__init__()
+            super(Under, self).__init__()
             self.idx = idx
+            self._state = ChannelState.Idle
+            self.opens = 0
+            self.closes = 0
+
+        @property
+        def state(self):
+            return self._state
+
+        def Open(self):
+            self.opens += 1
+            ar = AsyncResult()
+            if self._state != ChannelState.Closed:
+                self._state = ChannelState.Open
+                ar.set(True)
+            else:
+                ar.set_exception(E('closed'))
+            return ar
+
+        def Close(self):
+            self.closes += 1
+            self._state = ChannelState.Closed
+
+        def fault(self):
+            self._state = ChannelState.Closed
+            self.on_faulted.Set(E('fault'))
 
         def AsyncProcessRequest(self, sink_stack, msg, stream, headers):
             pass
@@ -466,45 +575,102 @@ def run_sharedprov(script):
             pass
 
     class NextProv(object):
-        sink_class = Plain
+        sink_class = Under
 
         def __init__(self):
-            self.count = 0
+            self.sinks = []      # the underlying sinks (never the wrappers) stay alive: observed and faulted
 
         def CreateSink(self, properties):
-            self.count += 1
-            return Plain(self.count)
+            s = Under(len(self.sinks) + 1)
+            self.sinks.append(s)
+            return s
 
-    prov = SharedSinkProvider(lambda props: props['key'])
-    Next = prov.next_provider = NextProv()
+    try:
+        prov = SharedSinkProvider(lambda props: props['key'])
+        Next = prov.next_provider = NextProv()
+    except _IMPL_EXC as ex:
+        return _raised_at_start('sharedprov', '', script['ops'] and ' '.join(str(x) for x in script['ops'][0]), ex)
     held = {}
     steps = []
     seen = []
-    for op in script['ops']:
-        if op[0] == 'create':
-            before = Next.count
-            sink = prov.CreateSink({'key': op[2]})
-            shared = isinstance(sink, RefCountedSink)
-            idx = sink.next_sink.idx if shared else sink.idx
-            if op[2] == 0:
-                tags.add('unshared')
-            elif Next.count == before:
-                tags.add('cache-hit')
-            elif op[2] in seen:
-                tags.add('recreated-after-collect')
-            seen.append(op[2])
-            held[op[1]] = sink
-            del sink
-            text = 'create %d %d' % (op[1], op[2])
+
+    def under_of(sink):
+        return sink.next_sink if isinstance(sink, RefCountedSink) else sink
+
+    def describe(sink, fresh):
+        """(id of the underlying sink, is a wrapper, …, fresh, wrapper count, views)"""
+        if sink is None:
+            idx, shared, rc = 0, False, 0
         else:
-            held.pop(op[1], None)
-            idx, shared = 0, False
-            text = 'drop %d' % op[1]
-        gc.collect()
-        steps.append([text, vfmt([idx, shared, Next.count, list(prov._cache.keys())])])
-    errs = rt.take_errors()
-    if errs:
-        steps.append(['drop 0', vfmt(['raised', errs[0][0]])])
+            shared = isinstance(sink, RefCountedSink)
+            idx = under_of(sink).idx
+            rc = sink._ref_count if shared else 0
+        return [idx, shared, len(Next.sinks), list(prov._cache.keys()), fresh, rc,
+                [(_state_name(u.state), u.opens, u.closes) for u in Next.sinks]]
+
+    for op in script['ops']:
+        name = op[0]
+        text = ' '.join(str(x) for x in op)
+        sink = None
+        fresh = False
+        try:
+            if name == 'create':
+                key = op[2]
+                before = len(Next.sinks)
+                cached = prov._cache.get(key) if key else None
+                if cached is not None and cached.state == ChannelState.Closed:
+                    tags.add('create-while-closed')
+                del cached
+                sink = prov.CreateSink({'key': key})
+                fresh = not getattr(sink, '_c16_seen', False)
+                sink._c16_seen = True
+                if key == 0:
+                    tags.add('unshared')
+                elif len(Next.sinks) == before:
+                    tags.add('cache-hit')
+                elif key in seen:
+                    tags.add('recreated-after-collect')
+                seen.append(key)
+                held[op[1]] = sink
+            elif name == 'drop':
+                held.pop(op[1], None)
+            elif name in ('hopen', 'hclose'):
+                sink = held.get(op[1])
+                if sink is not None:
+                    if isinstance(sink, RefCountedSink):
+                        rc0, u = sink._ref_count, under_of(sink)
+                        if name == 'hopen':
+                            tags.add('shared-open-first' if rc0 == 0 else 'shared-open-again')
+                            if rc0 == 0 and u.closes > 0:
+                                tags.add('shared-re-open')
+                        else:
+                            tags.add('shared-surplus-close' if rc0 == 0 else
+                                     'shared-close-last' if rc0 == 1 else 'shared-close-early')
+                    if name == 'hopen':
+                        sink.Open()
+                    else:
+                        sink.Close()
+            else:
+                k = op[1]
+                if 1 <= k <= len(Next.sinks):
+                    u = Next.sinks[k - 1]
+                    if u.state == ChannelState.Open and any(under_of(x) is u and isinstance(x, RefCountedSink)
+                                                            for x in held.values()):
+                        tags.add('fault-open-shared')
+                    u.fault()
+            gc.collect()
+            obs = vfmt(describe(sink, fresh))
+            del sink
+            errs = rt.take_errors()
+            if errs:
+                obs = vfmt(['raised', errs[0][0]])
+        except _IMPL_EXC as ex:
+            obs = vfmt(['raised', type(ex).__name__])
+            rt.take_errors()
+        steps.append([text, obs])
+        if obs.startswith('(raised'):
+            tags.add('raised')
+            break
     return {'comp': 'sharedprov', 'cfg': '', 'steps': steps, 'tags': sorted(tags)}
 
 
@@ -524,4 +690,6 @@ def nontrivial(case):
     t = set(case.get('tags', []))
     return bool(t & {'req-during-open', 'open-during-open', 'close-during-open', 'fault-during-open',
                      'fault-open-sink', 'open-fail', 'replaced', 'concurrent-handover', 'surplus-close',
-                     're-open', 'contended', 'cache-hit', 'recreated-after-collect', 'dropped'})
+                     're-open', 'contended', 'cache-hit', 'recreated-after-collect', 'dropped',
+                     'create-while-closed', 'shared-open-again', 'shared-close-early', 'shared-surplus-close',
+                     'shared-re-open', 'fault-open-shared'})
